@@ -442,6 +442,7 @@ def r8r9_paths(text, fn, log, extra=()):
                      (r'::core::clone::Clone::clone', 'Clone::clone'),
                      (r'(?<![A-Za-z0-9_:])crate::(?:[a-z_0-9]+::)*', ''),
                      (r'(?<![A-Za-z0-9_:])super::(?:[a-z_0-9]+::)*', ''),
+                     (r'(?<![A-Za-z0-9_:])(?:std::)?cmp::min\(', 'min_usize('),
                      (r'(?<![A-Za-z0-9_:])std::cmp::', ''),
                      (r'(?<![A-Za-z0-9_:])::core::cmp::', '')]:
         for mk in re.finditer(pat, m):
